@@ -170,6 +170,11 @@ Factory == /\ stage = 0
               \/ "generator" \in Ops /\ \E k \in 0..(d*d-1) : Done("generator",<<k,0,0,0>>,<<>>,Basis(d,k),S0)
               \/ "posproj" \in Ops /\ \E k \in 0..(d-1) : Done("posproj",<<k,0,0,0>>,<<>>,PosProjM(d,k),S0)
               \/ "negproj" \in Ops /\ \E k \in 0..(d-1) : Done("negproj",<<k,0,0,0>>,<<>>,NegProjM(d,k),S0)
+              \* WeightedRotation of the weight itself (operand = Yd): exported with the operand in A and p[4] = 1
+              \/ "wrot" \in Ops /\ \E qv \in 0..(NSpec-1) : \E ys \in {1,3} :
+                    LET qw == (qv * 3 + 1) % NSpec  Y == MDiagInt(SpecH(ys,d),d) IN
+                    /\ R' = WRot(Y,d,qv,qw,ys) /\ s' = S0 /\ A' = Y /\ stage' = 3 /\ n' = n + 1 /\ UNCHANGED <<d,B>>
+                    /\ act' = [op |-> "wrot", p |-> <<qv,qw,ys,1>>, h |-> AngTh(qv,d) \o AngPh(qv,d) \o AngTh(qw,d) \o AngPh(qw,d) \o SpecH(ys,d)]
               \/ "mixing" \in Ops /\ \E q \in 0..(NSpec-1) :
                     Done("mixing",<<q,0,0,0>>,AngTh(q,d) \o AngPh(q,d),MixU(d,AngTh(q,d),AngPh(q,d)),S0)
 
@@ -195,7 +200,7 @@ Spec == Init /\ [][Next]_vars
 \* export: one line per generated API call
 Emit == IF stage' = 3
         THEN PrintT(<<"EDGE", ToJson([d |-> d, op |-> act'.op, p |-> act'.p, h |-> act'.h,
-                                      A |-> Flat(A,d), B |-> Flat(B,d), R |-> Flat(R',d), s |-> SNorm(s')])>>)
+                                      A |-> Flat(A',d), B |-> Flat(B,d), R |-> Flat(R',d), s |-> SNorm(s')])>>)
         ELSE TRUE
 
 --------------------------------------------------------------------------
